@@ -21,7 +21,13 @@ RULE = ('T2: operation sequences (set / append / del / pop / in / getbytes / get
 	'names outside the RFC 7230 token alphabet must be refused on assignment and on the wire. Wave 4 (oracle): every registered field name in several letter cases, names and values at limit '
 	'lengths (11..65536) in six alphabets, normalisation forms / look-alikes, degenerate values; setdefault / update / set / constructor / set_element / append_element sequences (ops2); every bytes(h) is '
 	'compared with a second bytes(h), with a fresh / constructed / copied collection from the same items, read in other letter cases, and its octets re-written (names re-cased, other OWS, folded, '
-	'reordered, field by field) must parse to the same collection; blocks parsed twice / in pieces. non-trivial = distinct (kind, input)')
+	'reordered, field by field) must parse to the same collection; blocks parsed twice / in pieces. Wave 5 (oracle): well-formed requests and responses with repeated fields (adjacent and separated by other fields, several letter cases, folded, empty, '
+	'trailer occurrences) received by ServerStateMachine / ClientStateMachine at once, cut at / around every line start, at random places and octet by octet, the receive buffer as bytes / bytearray / '
+	'memoryview written over after each call, pipelined twice (kind msg: expected collection and field order computed from the generated field list); values as bytearray / memoryview written over after '
+	'the call, the constructor fed from ten kinds of iterables of pairs and update / set from four mapping types (argument left unchanged, order of pairs kept), refused assignments (None, object, list, '
+	'lone surrogate) must leave the collection as it was; at every bytes(h): collections and messages built from h / a dict / a list of its items hold the same fields and share no state; names and '
+	'values of 2^k and 2^k+-1 octets (k = 9, 11, 14, 15); searched texts for every padding shape / \'/\' / \'+\' of the encoded word; blanks of str that are no blanks of bytes at the edges. '
+	'non-trivial = distinct (kind, input)')
 EXHAUSTIVE = {'quick': False, 'thorough': False}
 TRUSTED = ['harness/tables/headers.py, harness/tables/headers_api.py (T1: HEADER_RE class, spelling / join / priority / list-element tables, split-function identity and pinned '
 	'pattern texts, RFC 2047 framing, variant probes for D15 and D32), harness/tables/base64.py',
@@ -466,6 +472,183 @@ def gen_wave4(rng, tier):
 	return cases
 
 
+# ------------------------------------------------------------------ strengthening (wave 5): aliasing, argument types, refused operations, order, fragmented wire input,
+# value-dependent encoded forms, lengths at powers of two
+LIMITS_POW2 = [511, 512, 513, 2047, 2048, 2049, 16383, 16384, 16385, 32767, 32768, 32769]
+# fields the two state machines interpret themselves (framing, routing, body decoding): never used as the repeated field of a generated message
+MSG_FRAMING = ('host', 'content-length', 'transfer-encoding', 'content-encoding', 'content-type', 'connection', 'upgrade', 'http2-settings', 'trailer', 'te', 'expect')
+MSG_UNKNOWN = ['X-Tag', 'Foo', 'x-forwarded-for', "x!#$%&'*+.^_`|~9", 'A', 'X-Custom-Note-With-A-Long-Name', 'Zz']
+MSG_VALUES = [b'one', b'two', b'three', b'one', b'de', b'en;q=0.5', b'a=1', b'b=2; HttpOnly', b'1.1 alpha', b'199 - "x, y"', b'', b'*', b'"q,r"', b'W/"1"', b'x\xe9y', b'\xa0n\x85', b'a  b', b'=?utf-8?b?4oKs?=',
+	b'Basic realm="a b"', b'Mon, 01 Jan 2024 00:00:00 GMT', b'0', b'a=1; b=2', b',', b';']
+# octets / characters that str.strip() or str.isspace() treat as blank but that are no optional whitespace of a field value (and vice versa)
+EDGE_BLANKS = ['\x0b', '\x0c', '\x1c', '\x1d', '\x1e', '\x1f', '\x85', '\xa0', '\u1680', '\u2000', '\u2009', '\u200a', '\u2028', '\u2029', '\u202f', '\u205f', '\u3000', '\ufeff', '\x00', '\x7f']
+BAD_VALUES = ['none', 'strobj', 'int-list', 'surrogate', 'object']
+CONTAINERS = ['dict', 'odict', 'list', 'tuple', 'iter', 'gen', 'map', 'chain', 'items', 'zip']
+MAPPINGS = ['dict', 'odict', 'proxy', 'userdict']
+
+
+def _msg_names(rng, reg):
+	regular = [n for n in reg if n.lower() not in MSG_FRAMING]
+	names = []
+	for _ in range(rng.randint(1, 3)):
+		names.append(rng.choice(regular) if rng.random() < 0.55 else rng.choice(MSG_UNKNOWN))
+	return names
+
+
+def gen_msg(rng, reg, vlen=None):
+	"""a well-formed request or response whose header section repeats fields (adjacent and separated by other fields, in several letter cases, folded, empty),
+	and the ways its octets are distributed over parse() calls: at once, two pieces cut at / just before / just after every line start, a few random cuts, octet by octet"""
+	side = rng.choice(['req', 'resp'])
+	rep = _msg_names(rng, reg)
+	others = ['Accept-Ranges', 'X-Other', 'Server', 'User-Agent', 'Date', 'X-Request-Id', 'Age']
+	fields = []
+	for _ in range(rng.randint(2, 9)):
+		r = rng.random()
+		if r < 0.7:
+			nm = rng.choice(spellings(rng.choice(rep)))
+			v = rng.choice(MSG_VALUES)
+		else:
+			nm = rng.choice(spellings(rng.choice(others)))
+			v = rng.choice([b'bytes', b'1', b'x/1.0 (y)', b'', b'Mon, 01 Jan 2024 00:00:00 GMT'])
+		fields.append([nm, v, None])
+	if vlen is not None:
+		a = b'abcXYZ019-_.~!*'
+		fields[rng.randrange(len(fields))][1] = bytes(a[(i * 7 + i // len(a)) % len(a)] for i in range(vlen))
+	# one value folded at an inner blank (obs-fold: the continuation line starts with SP / HT, the blank stays)
+	if rng.random() < 0.3:
+		f = rng.choice(fields)
+		if b' ' in f[1].strip() and b'  ' not in f[1]:
+			i = f[1].strip().index(b' ')
+			f[1], f[2] = f[1].strip()[:i], f[1].strip()[i:]
+	framing = rng.choice(['none', 'none', 'cl', 'cl0', 'chunked', 'chunked-trailer'])
+	if side == 'req':
+		method = b'GET' if framing in ('none', 'cl0') else rng.choice([b'POST', b'PUT'])
+		start = method + b' ' + rng.choice([b'/', b'/index', b'/a/b?c=d']) + b' HTTP/1.1'
+		fields.insert(rng.randint(0, len(fields)), [rng.choice(['Host', 'host', 'HOST']), b'localhost', None])
+	else:
+		start = b'HTTP/1.1 ' + rng.choice([b'200 OK', b'404 Not Found', b'206 Partial Content'])
+	body = bytes(rng.choice(b'abc \r\n:') for _ in range(rng.randint(1, 12)))
+	tail = b''
+	trailers = []
+	if framing == 'cl':
+		fields.insert(rng.randint(0, len(fields)), [rng.choice(['Content-Length', 'content-length']), b'%d' % len(body), None])
+		tail = body
+	elif framing == 'cl0':
+		fields.insert(rng.randint(0, len(fields)), ['Content-Length', b'0', None])
+	elif framing.startswith('chunked'):
+		fields.insert(rng.randint(0, len(fields)), [rng.choice(['Transfer-Encoding', 'transfer-encoding']), b'chunked', None])
+		tail = b'%x\r\n%s\r\n0\r\n' % (len(body), body)
+		if framing == 'chunked-trailer':
+			tn = sorted(set(n for n in rep if n in ('X-Tag', 'Foo', 'Zz', 'A', 'Via', 'Warning', 'x-forwarded-for'))) or ['X-Tag']
+			fields.insert(rng.randint(0, len(fields)), ['Trailer', ', '.join(tn).encode(), None])
+			for n in tn:
+				for _ in range(rng.randint(1, 2)):
+					trailers.append([rng.choice(spellings(n)), rng.choice([b'tr1', b'tr2', b'one'])])
+			tail += b''.join(b'%s: %s\r\n' % (a.encode(), b) for a, b in trailers)
+		tail += b'\r\n'
+	lines = []
+	for nm, v, cont in fields:
+		lines.append(nm.encode() + b':' + rng.choice([b' ', b' ', b'', b'  ', b'\t']) + v + (rng.choice([b'', b'', b' ', b'\t']) if cont is None else b''))
+		if cont is not None:
+			lines.append(rng.choice([b' ', b'\t']) + cont + rng.choice([b'', b' ']))
+	head = start + b'\r\n' + b'\r\n'.join(lines) + b'\r\n\r\n'
+	wire = head + tail
+	pipeline = side == 'req' and rng.random() < 0.25
+	# where the lines of the header section start
+	starts = [i + 2 for i in range(len(head) - 2) if head[i:i + 2] == b'\r\n']
+	frags = [[]]
+	cand = set()
+	for st in starts:
+		cand.update([st - 1, st, st + 1, st + 2])
+	cand = sorted(x for x in cand if 0 < x < len(wire))
+	picks = cand if len(cand) <= 14 else rng.sample(cand, 14)
+	frags.extend([x] for x in sorted(picks))
+	for _ in range(3):
+		frags.append(sorted(rng.sample(range(1, len(wire)), min(rng.randint(2, 5), len(wire) - 1))))
+	# every line in its own piece plus the first octet of the next one
+	frags.append([st + 1 for st in starts if st + 1 < len(wire)])
+	frags.append([st for st in starts if st < len(wire)])
+	if len(wire) <= 700:
+		frags.append('each')
+	return {'k': 'msg', 'side': side, 'wire': wire.hex(), 'hlen': len(head), 'fields': [[a, b.hex(), None if c is None else c.hex()] for a, b, c in fields], 'trailers': [[a, b.hex()] for a, b in trailers],
+		'framing': framing, 'pipeline': pipeline, 'frags': frags}
+
+
+def decorate_ops2(rng, ops):
+	"""the same operation sequences with the other argument types the interface accepts: values as bytearray / memoryview (written over by the caller after the call),
+	blocks as bytearray, the constructor fed from every kind of iterable of pairs, update / set from other mapping types, and operations that must be refused"""
+	out = []
+	for op in ops:
+		op = json.loads(json.dumps(op))
+		n = op[0]
+		if n in ('set', 'append', 'setdefault') and 'b' in op[2] and rng.random() < 0.5:
+			op[2]['as'] = rng.choice(['bytearray', 'memoryview'])
+		elif n == 'parse' and rng.random() < 0.5 and not any(nm in bytes.fromhex(op[1]['b']).lower() for nm in SEP):
+			# clean-tree observation (reported, kept out of the generator): Headers.parse(bytearray) looks the field class up with a bytearray name, finds none and joins
+			# repeated Cookie / WWW-Authenticate / Proxy-Authenticate lines with ', ' instead of the separator of the field; parse(memoryview) raises AttributeError.
+			# The state machines always hand over bytes, so received messages are not affected.
+			op[1]['as'] = 'bytearray'
+		elif n in ('update', 'setall', 'ctor'):
+			for a, b in op[1]:
+				if 'b' in b and rng.random() < 0.4:
+					b['as'] = rng.choice(['bytearray', 'memoryview'])
+			op.append(rng.choice(CONTAINERS if n == 'ctor' else MAPPINGS))
+		out.append(op)
+		if rng.random() < 0.12 and len(op) > 1 and isinstance(op[1], dict) and n != 'parse':
+			out.append(['setbad', rng.choice(['set', 'append', 'setdefault', 'update']), op[1], rng.choice(BAD_VALUES)])
+	return out
+
+
+def gen_wave5(rng, tier):
+	big = tier == 'thorough'
+	reg = _registry()
+	cases = []
+	# (14)/(15) repeated fields x fragmentation of the header section, through the two state machines
+	for _ in range(4000 if big else 330):
+		cases.append(gen_msg(rng, reg))
+	for n in [255, 256, 257] + LIMITS_POW2[:6] + [4095, 4096, 4097] + (LIMITS_POW2[6:] if big else []):
+		cases.append(gen_msg(rng, reg, vlen=n))
+	# (10)/(11)/(12) argument types, aliasing of arguments, refused operations
+	for _ in range(3000 if big else 260):
+		cases.append({'k': 'ops2', 'every': rng.random() < 0.3, 'ops': decorate_ops2(rng, gen_ops2(rng, reg))})
+	for kind in CONTAINERS:
+		# order of the pairs handed to the constructor: unsorted, duplicates (same name in other letter case: the later value, the earlier position), reverse-sorted
+		names = ['X-B', 'x-a', 'ETag', 'Zz', 'x-b', 'Accept', 'X-A', 'cookie', 'A']
+		for order in (names, sorted(names), sorted(names, reverse=True), rng.sample(names, len(names))):
+			cases.append({'k': 'ops2', 'every': False, 'ops': [['ctor', [[{'t': nm} if i % 3 else {'b': nm.encode().hex()}, {'b': (b'v%d' % i).hex()}] for i, nm in enumerate(order)], kind], ['compose'],
+				['get', {'t': 'x-B'}], ['update', [[{'t': nm.swapcase()}, {'t': 'w%d' % i}] for i, nm in enumerate(order[:4])], rng.choice(MAPPINGS)], ['compose']]})
+	# (17) names and values at powers of two and next to them
+	for n in LIMITS_POW2:
+		s = ''.join(TOK[(i * 5) % len(TOK)] for i in range(n))
+		cases.append({'k': 'ops2', 'every': False, 'ops': [['set', {'t': s.upper()}, {'t': 'v'}], ['mem', {'b': s.lower().encode().hex()}], ['get', {'t': s.swapcase()}], ['compose'],
+			['append', {'t': s.lower()}, {'b': b'w'.hex(), 'as': 'bytearray'}], ['compose'], ['del', {'t': s.title()}], ['mem', {'t': s}]]})
+		for alpha in sorted(ALPHABETS):
+			if n > 9000 and alpha not in ('ascii', 'bmp', 'astral') and not big:
+				continue
+			t = text_of_len(rng, n, alpha)
+			cases.append({'k': 'rt_value', 't': t, 'name': rng.choice(spellings(rng.choice(reg + ['X-Value', 'Subject'])))})
+			if n <= 8193:
+				nm = rng.choice(['X-Long', 'Subject', 'ETag', 'cookie', 'user-agent'])
+				cases.append({'k': 'ops2', 'every': False, 'ops': [[rng.choice(['set', 'setdefault', 'append']), {'t': nm}, {'t': t}], ['get', {'t': nm.swapcase()}], ['compose'],
+					['append', {'t': nm.upper()}, {'t': t[:n // 2 + 1].rstrip() or 'x'}], ['compose'], ['update', [[{'t': nm.lower()}, {'t': t}]], 'odict'], ['compose']]})
+	# (16) value-dependent forms: search for texts whose encoded word has each padding shape, contains '/' or '+', or whose octets contain '=?' / '?='; blanks of str but not of bytes at the edges
+	seen = {}
+	for _ in range(6000 if big else 1500):
+		t = ''.join(rng.choice('ao?=\u20ac\u00ff\u0100\u07ff\u0800\uffff\U0001f600 ~') for _ in range(rng.randint(1, 7)))
+		raw, _t = _fmt({'t': t})
+		if raw is None:
+			continue
+		word = raw[10:-2] if raw.startswith(b'=?utf-8?b?') and t.encode('utf-8') != raw else b''
+		sig = (len(word) - len(word.rstrip(b'=')), b'/' in word, b'+' in word, '=?' in t, '?=' in t, t != t.strip(), bool(word))
+		if seen.get(sig, 0) < (12 if big else 3):
+			seen[sig] = seen.get(sig, 0) + 1
+			cases.append({'k': 'rt_value', 't': t, 'name': rng.choice(['X-Value', 'subject', 'COOKIE', 'etag'])})
+	for ch in EDGE_BLANKS:
+		for t in (ch + 'a', 'a' + ch, ch, 'a' + ch + 'b', '\u20ac' + ch, ch + '\u20ac'):
+			cases.append({'k': 'rt_value', 't': t, 'name': rng.choice(['X-Value', 'Subject', 'via'])})
+	return cases
+
+
 def gen_cases(rng, tier):
 	big = tier == 'thorough'
 	cases = []
@@ -504,6 +687,7 @@ def gen_cases(rng, tier):
 		blk, exp = gen_block(rng, [rng.choice(KNOWN_NAMES) for _ in range(3)], rng.random() < 0.5)
 		cases.append({'k': 'parse', 'd': blk.hex()})
 	cases.extend(gen_wave4(rng, tier))
+	cases.extend(gen_wave5(rng, tier))
 	return cases
 
 
@@ -527,7 +711,192 @@ def _exc(exc):
 
 
 def _val(v):
-	return bytes.fromhex(v['b']) if 'b' in v else v['t']
+	if 'b' in v:
+		raw = bytes.fromhex(v['b'])
+		if v.get('as') == 'bytearray':
+			return bytearray(raw)
+		if v.get('as') == 'memoryview':
+			return memoryview(bytearray(raw))
+		return raw
+	return v['t']
+
+
+def _spoil(obj):
+	"""what a caller may do with its own mutable argument after the call returned: write over it"""
+	if isinstance(obj, memoryview) and not obj.readonly:
+		obj[:] = b'#' * len(obj)
+	elif isinstance(obj, bytearray):
+		obj[:] = b'#' * (len(obj) + 1)
+	elif isinstance(obj, list):
+		for x in obj:
+			_spoil(x)
+		del obj[:]
+	elif isinstance(obj, dict):
+		for x in list(obj.values()):
+			_spoil(x)
+		obj.clear()
+
+
+class _StrObj(object):
+	def __str__(self):
+		return 'text of an object'
+
+
+def _bad_value(kind):
+	return {'none': None, 'strobj': _StrObj(), 'int-list': [1, 2, 'x'], 'surrogate': 'a\udc80b', 'object': object()}[kind]
+
+
+def _container(kind, pairs):
+	"""pairs (list of 2-tuples) as the argument object of the given kind -> (argument, snapshot function or None)"""
+	import collections
+	import itertools
+	import types
+	if kind == 'dict':
+		d = dict(pairs)
+		return d, lambda: list(d.items())
+	if kind == 'odict':
+		d = collections.OrderedDict(pairs)
+		return d, lambda: list(d.items())
+	if kind == 'proxy':
+		d = dict(pairs)
+		return types.MappingProxyType(d), lambda: list(d.items())
+	if kind == 'userdict':
+		d = collections.UserDict(dict(pairs))
+		return d, lambda: list(d.items())
+	if kind == 'list':
+		l = list(pairs)
+		return l, lambda: list(l)
+	if kind == 'tuple':
+		t = tuple(pairs)
+		return t, lambda: list(t)
+	if kind == 'items':
+		d = dict(pairs)
+		return d.items(), lambda: list(d.items())
+	if kind == 'iter':
+		return iter(list(pairs)), None
+	if kind == 'gen':
+		return ((a, b) for a, b in list(pairs)), None
+	if kind == 'map':
+		return map(tuple, [list(x) for x in pairs]), None
+	if kind == 'chain':
+		return itertools.chain(pairs[:1], iter(pairs[1:])), None
+	if kind == 'zip':
+		return zip([a for a, _ in pairs], [b for _, b in pairs]), None
+	raise ValueError(kind)
+
+
+def _alias_check(h):
+	"""collections (and messages) built from h, from a dict and from a list of its items: each holds what h holds, changing any of them changes neither h, nor the
+	argument object, nor one of the others (oracle only)"""
+	Headers = _impl()[0]
+	from httoop import Request, Response
+	raw = lambda x: list(dict.items(x))  # noqa: E731
+	before = raw(h)
+	src = dict(before)
+	pairs = list(before)
+	bad = []
+
+	def setter(arg):
+		m = Response()
+		m.headers = arg
+		return m.headers
+	built = []
+	# assigning a Headers object to message.headers reads every value as text and formats it again: octets that form an encoded word need not stay the same octets
+	# (an encoded word of Latin-1 text comes back raw, a broken one is refused: D16's ambiguity) - that path only for collections without '=?'
+	words = any(b'=?' in v for v in dict.values(h))
+	for what, f in (('Headers(h)', lambda: Headers(h)), ('Headers(dict)', lambda: Headers(src)), ('Headers(list of pairs)', lambda: Headers(pairs)), ('Request(headers=h).headers', lambda: Request(headers=h).headers),
+			('Response(headers=dict).headers', lambda: Response(headers=src).headers), ('message.headers = h', lambda: setter(h)), ('message.headers = dict', lambda: setter(src))):
+		if words and what == 'message.headers = h':
+			continue
+		try:
+			built.append((what, f()))
+		except Exception as exc:
+			bad.append('%s raised %s' % (what, _exc(exc)))
+	if raw(h) != before or list(src.items()) != before or pairs != before:
+		bad.append('building collections / messages from a collection, a dict and a list of pairs changed the argument object')
+	want = sorted(before)
+	snaps = []
+	for what, b in built:
+		snaps.append(raw(b))
+		if b is h:
+			bad.append('%s is the argument object itself' % what)
+		elif sorted(snaps[-1]) != want:
+			bad.append('%s holds other fields than the argument: %r' % (what, _items(b)[:4]))
+	for i, (what, b) in enumerate(built):
+		if b is h:
+			continue
+		try:
+			for kk in list(dict.keys(b))[:3]:
+				b[kk.swapcase()] = b'changed-%d' % i
+			b['X-Alias-%d' % i] = b'1'
+			b.parse(b'X-Alias-Wire: 1\r\nx-alias-%d: 2' % i)
+			for kk in list(dict.keys(b))[-2:]:
+				del b[kk.upper()]
+			b.clear()
+		except Exception as exc:
+			bad.append('changing %s raised %s' % (what, _exc(exc)))
+		snaps[i] = raw(b)
+		if raw(h) != before:
+			bad.append('changing %s changed the collection it was built from' % what)
+			break
+		if list(src.items()) != before or pairs != before:
+			bad.append('changing %s changed the dict / list it was built from' % what)
+			break
+		for j, (other, x) in enumerate(built):
+			if j != i and raw(x) != snaps[j]:
+				bad.append('changing %s changed %s' % (what, other))
+				break
+	return bad[:3]
+
+
+def _msg_pieces(stream, cuts, n):
+	if cuts == 'each':
+		return [stream[i:i + 1] for i in range(len(stream))]
+	cuts = sorted(set(cuts))
+	if len(stream) > n:
+		cuts = cuts + [n] + [x + n for x in cuts]
+	pts = [0] + [x for x in cuts if 0 < x < len(stream)] + [len(stream)]
+	return [stream[a:b] for a, b in zip(pts, pts[1:])]
+
+
+def _observe_msg(c):
+	from httoop import Request
+	from httoop.client import ClientStateMachine
+	from httoop.server import ServerStateMachine
+	wire = bytes.fromhex(c['wire'])
+	stream = wire * 2 if c.get('pipeline') else wire
+	runs = []
+	for fi, cuts in enumerate(c['frags']):
+		if c['side'] == 'req':
+			sm = ServerStateMachine('http', 'localhost', 80)
+		else:
+			sm = ClientStateMachine()
+			sm.request = Request(method='GET', uri='http://localhost/')
+		msgs = []
+		try:
+			for pi, piece in enumerate(_msg_pieces(stream, cuts, len(wire))):
+				# the receive buffer in the types a transport hands over; a mutable one is reused (written over) by the caller after parse() returned
+				arg = [bytes, bytearray, lambda x: memoryview(bytearray(x))][(fi + pi) % 3](piece)
+				got = sm.parse(arg)
+				_spoil(arg)
+				for item in got:
+					msgs.append(item[0] if c['side'] == 'req' else item)
+		except Exception as exc:
+			runs.append(['raised', '%s: %s' % (type(exc).__name__, str(exc)[:120])])
+			continue
+		out = []
+		for m in msgs:
+			ci = []
+			for kk, vv in dict.items(m.headers):
+				for sp in (kk.swapcase(), kk.lower().encode('ascii', 'replace')):
+					try:
+						if sp not in m.headers or m.headers.getbytes(sp) != vv:
+							ci.append(kk)
+					except Exception as exc:
+						ci.append('%s: %s' % (kk, _exc(exc)))
+			out.append({'items': _items(m.headers), 'ci': ci[:2]})
+		runs.append(['ok', out])
+	return {'runs': runs}
 
 
 def _items(h):
@@ -644,6 +1013,9 @@ def _compose_extras(h, out, rt, back):
 				if safe(obj.__contains__, sp) is not True or safe(obj.getbytes, sp) != vv or safe(obj.get, sp) != safe(h.get, kk) or safe(obj.__getitem__, sp) != safe(h.get, kk):
 					ci.append([what, sp if isinstance(sp, str) else sp.decode('latin-1')])
 	x['ci'] = ci[:3]
+	x['alias'] = _alias_check(h)
+	if _items(h) != before:
+		x['unchanged'] = False
 	if isinstance(rt, list):
 		x['eq'] = bool(back == h and h == back and not (back != h))
 		rng = random.Random(zlib.crc32(out))
@@ -683,11 +1055,15 @@ def observe(c):
 					td[v.hex()] = _decode(v)
 			try:
 				if name == 'set':
-					h[key_obj(op[1])] = _val(op[2])
+					arg = _val(op[2])
+					h[key_obj(op[1])] = arg
 					r = 'unit'
+					_spoil(arg)
 				elif name == 'append':
-					h.append(key_obj(op[1]), _val(op[2]))
+					arg = _val(op[2])
+					h.append(key_obj(op[1]), arg)
 					r = 'unit'
+					_spoil(arg)
 				elif name == 'del':
 					del h[key_obj(op[1])]
 					r = 'unit'
@@ -703,7 +1079,11 @@ def observe(c):
 					x = h.get(key_obj(op[1]))
 					r = ['opt', None if x is None else x.encode('utf-8', 'surrogatepass').hex()]
 				elif name == 'parse':
-					h.parse(bytes.fromhex(op[1]['b']))
+					arg = _val(op[1])
+					try:
+						h.parse(arg)
+					finally:
+						_spoil(arg)
 					r = 'unit'
 				elif name == 'compose':
 					out = bytes(h)
@@ -729,8 +1109,30 @@ def observe(c):
 					h.clear()
 					r = 'unit'
 				elif name == 'setdefault':
-					x = h.setdefault(key_obj(op[1]), _val(op[2]))
+					arg = _val(op[2])
+					x = h.setdefault(key_obj(op[1]), arg)
 					r = ['opt', None if x is None else bytes(x).hex()]
+					_spoil(arg)
+				elif name in ('update', 'setall', 'ctor') and len(op) > 2:
+					# the argument as another type of mapping / iterable of pairs; it must be read completely, left as it was, and not be kept
+					pairs = [(key_obj(a), _val(b)) for a, b in op[1]]
+					arg, snap = _container(op[2], pairs)
+					was = snap() if snap else None
+					try:
+						if name == 'update':
+							h.update(arg)
+						elif name == 'setall':
+							h.set(arg)
+						else:
+							h = Headers(arg)
+						r = 'unit'
+						if snap and snap() != was:
+							r = 'argchanged'
+					finally:
+						for _a, b in pairs:
+							_spoil(b)
+						if isinstance(arg, (dict, list)):
+							_spoil(arg)
 				elif name == 'update':
 					h.update(dict((key_obj(a), _val(b)) for a, b in op[1]))
 					r = 'unit'
@@ -740,6 +1142,20 @@ def observe(c):
 				elif name == 'ctor':
 					h = Headers(dict((key_obj(a), _val(b)) for a, b in op[1]))
 					r = 'unit'
+				elif name == 'setbad':
+					bv = _bad_value(op[3])
+					try:
+						if op[1] == 'set':
+							h[key_obj(op[2])] = bv
+						elif op[1] == 'append':
+							h.append(key_obj(op[2]), bv)
+						elif op[1] == 'setdefault':
+							h.setdefault(key_obj(op[2]), bv)
+						else:
+							h.update({key_obj(op[2]): bv})
+						r = 'accepted'
+					except Exception as exc:
+						r = ['refused', type(exc).__name__]
 				elif name == 'setel':
 					h.set_element(key_obj(op[1]), _val(op[2]))
 					r = 'unit'
@@ -761,6 +1177,8 @@ def observe(c):
 				except Exception as exc:
 					freshbad = [step, _exc(exc)]
 		return {'res': res, 'states': states, 'tt': tt, 'td': td, 'freshbad': freshbad}
+	if k == 'msg':
+		return _observe_msg(c)
 	if k == 'key':
 		tt = {}
 		_record_title(c['key'], tt)
@@ -1048,6 +1466,8 @@ def oracle(c, o):
 		if o['twice'] != want:
 			return 'header block parsed twice into one collection: repeated fields are not combined in arrival order with the separator of the field: %s -> %r' % (c['d'], o['twice'])
 		return None
+	if k == 'msg':
+		return _oracle_msg(c, o)
 	if k not in ('ops', 'ops2'):
 		return None
 	if o.get('freshbad') is not None:
@@ -1155,7 +1575,15 @@ def oracle(c, o):
 					return 'step %d: valid %s refused or answered wrongly: %s -> %r' % (i, name, json.dumps(op[1]), r)
 				ref[lk] = raw
 				txt[lk] = t
+		elif name == 'setbad':
+			if r == 'accepted':
+				resync = True
+			elif not (isinstance(r, list) and r[0] == 'refused'):
+				return 'step %d: %r' % (i, r)
+			# refused: the collection must be what it was (compared with the reference below)
 		elif name in ('update', 'setall', 'ctor'):
+			if r == 'argchanged':
+				return 'step %d: %s changed the argument object it was given (%s of pairs): %s' % (i, name, op[2], json.dumps(op[1])[:300])
 			E = {}
 			for a, b in op[1]:
 				E[key_obj(a)] = (a, b)
@@ -1186,6 +1614,8 @@ def oracle(c, o):
 				return 'step %d: %s answered %r, expected %r' % (i, name, r, want)
 			elif name != 'ctor' or want == 'unit':
 				ref, txt = tmp, ttmp
+				if name == 'ctor' and len(op) > 2 and list(lstate) != list(tmp):
+					return 'step %d: a collection constructed from %s of pairs does not keep the order of the pairs: %r, given %r' % (i, op[2], list(lstate), list(tmp))
 		elif name == 'parse':
 			exp = op[2]
 			if exp is None:
@@ -1230,6 +1660,8 @@ def oracle(c, o):
 					return 'step %d: %s: %s' % (i, what, r[1][:400])
 			if x.get('fresh_err'):
 				return 'step %d: building a fresh collection from the stored items raised %s: %r' % (i, x['fresh_err'], sorted(state))
+			if x.get('alias'):
+				return 'step %d: aliasing: %s (collection %r)' % (i, '; '.join(x['alias']), sorted(state)[:6])
 			if x.get('ci'):
 				return 'step %d: lookup / membership in another letter case answers differently from the stored spelling: %r' % (i, x['ci'])
 			if x.get('reenc'):
@@ -1243,6 +1675,66 @@ def oracle(c, o):
 			txt = dict((a, None) for a in ref)
 		elif lstate != ref:
 			return 'step %d (%s): collection differs from the reference multimap: %r, reference %r' % (i, name, sorted(lstate.items()), sorted(ref.items()))
+	return None
+
+
+def _oracle_msg(c, o):
+	"""repeated fields of a received message are combined in arrival order with the separator of the field, whatever the letter case of the names and however
+	the octets were distributed over the parse() calls; expected collection computed from the generated field list alone"""
+	exp, order = {}, []
+	for nm, v, cont in c['fields']:
+		lk = nm.lower().encode('ascii')
+		v = (bytes.fromhex(v) + (bytes.fromhex(cont) if cont is not None else b'')).strip(b' \t')
+		if lk in exp:
+			exp[lk] = exp[lk] + SEP.get(lk, b', ') + v
+		else:
+			exp[lk] = v
+			order.append(lk)
+	tr, trorder = {}, []
+	for nm, v in c['trailers']:
+		lk = nm.lower().encode('ascii')
+		if lk in tr:
+			tr[lk] = tr[lk] + SEP.get(lk, b', ') + bytes.fromhex(v)
+		else:
+			tr[lk] = bytes.fromhex(v)
+			trorder.append(lk)
+	declared = [x.strip().lower() for x in exp.get(b'trailer', b'').split(b',') if x.strip()]
+	for lk in declared:
+		if lk in tr:
+			# a trailer field is one more occurrence of the field, received last
+			if exp.get(lk):
+				exp[lk] = exp[lk] + SEP.get(lk, b', ') + tr[lk]
+			else:
+				if lk not in exp:
+					order.append(lk)
+				exp[lk] = tr[lk]
+	framing = (b'content-length', b'transfer-encoding')
+	want = [(lk, exp[lk]) for lk in order if lk not in framing]
+	wire = bytes.fromhex(c['wire'])
+	for cuts, run in zip(c['frags'], o['runs']):
+		if cuts == 'each':
+			how = 'octet by octet'
+		elif not cuts:
+			how = 'in one parse() call'
+		else:
+			how = 'in pieces ' + ' | '.join(repr(x if len(x) < 40 else x[:18] + b'...' + x[-18:]) for x in _msg_pieces(wire, cuts, len(wire)))
+		if run[0] != 'ok':
+			return 'well-formed message refused (%s) when received %s: %r' % (run[1], how, wire[:300])
+		if len(run[1]) != (2 if c.get('pipeline') else 1):
+			return 'message received %s: %d message(s) delivered instead of %d: %r' % (how, len(run[1]), 2 if c.get('pipeline') else 1, wire[:300])
+		for n, m in enumerate(run[1]):
+			got = [(bytes.fromhex(a).lower(), bytes.fromhex(b)) for a, b in m['items']]
+			if len(set(a for a, _ in got)) != len(got):
+				return 'message received %s: two stored names differ only in case: %r' % (how, got)
+			got = [(a, b) for a, b in got if a not in framing]
+			if dict(got) != dict(want):
+				diff = sorted(a for a in set(dict(got)) | set(dict(want)) if dict(got).get(a) != dict(want).get(a))
+				return ('repeated fields received on the wire are not combined in arrival order with the separator of the field when the message (%s of %d) is received %s: field %r is %r, expected %r; header section %r'
+					% (['first', 'second'][n], len(run[1]), how, diff[0], dict(got).get(diff[0]), dict(want).get(diff[0]), wire[:c['hlen']][:400]))
+			if [a for a, _ in got] != [a for a, _ in want]:
+				return 'message received %s: the fields are not kept in the order of their first arrival: %r, expected %r' % (how, [a for a, _ in got], [a for a, _ in want])
+			if m['ci']:
+				return 'message received %s: lookup / membership in another letter case answers differently from the stored spelling: %r' % (how, m['ci'])
 	return None
 
 
